@@ -478,6 +478,9 @@ def build_source(src, workdir):
     return ds, keep, truth
 
 
+LAST_FILTER_FALLBACK = False
+
+
 def apply_filters(ds, mask, flt):
     """Set the manual mask and, when asked, real filter settings (box range,
     polygon, remove invalid events, limit events); returns ds.filter.all and
@@ -521,9 +524,12 @@ def apply_filters(ds, mask, flt):
                     axes=(fx, fy),
                     points=[[x0, y0], [x1, y0], [x1, y1], [x0, y1]])
                 ds.polygon_filter_add(pf)
+    global LAST_FILTER_FALLBACK
+    LAST_FILTER_FALLBACK = False
     try:
         ds.apply_filter()
     except Exception:
+        LAST_FILTER_FALLBACK = True
         # computing the filters is not C02's subject (C03/C06): some sources
         # cannot evaluate every ancillary feature ('remove invalid events'
         # on dict data with contours); fall back to weaker settings
@@ -579,6 +585,7 @@ def run_export_case(case, workdir):
         if not case.get("filters"):
             assert not real_filter, "filter setup"
         res["info"]["real_filter"] = real_filter
+        res["info"]["filter_fallback"] = LAST_FILTER_FALLBACK
         troot = truth["_root"]["root"]
         rootmap = truth["_root"]["rootmap"]
         prefix = case.get("prefix", "src_")
@@ -648,8 +655,10 @@ def run_export_case(case, workdir):
         stok = lambda x: zlib.crc32(str(x).encode("utf-8"))  # noqa: E731
         want_logs = bool(case.get("logs", False))
         want_tables = bool(case.get("tables", False))
-        log_names = list(ds.logs.keys())
-        tab_names = list(ds.tables.keys())
+        # (contents are only rendered when the flag is set: nothing may be
+        # stored otherwise, which the prefixed-name counts observe)
+        log_names = list(ds.logs.keys()) if want_logs else []
+        tab_names = list(ds.tables.keys()) if want_tables else []
 
         def table_tokens(tab):
             arr = gen.table_array(tab)
@@ -745,6 +754,7 @@ def run_export_case(case, workdir):
         flat = []
         fails = []
         part_diff = {}
+        part_eidx = {}
         part_fail_msgs = []
         with h5py.File(out, "r") as h5:
             count = h5.attrs.get("experiment:event count")
@@ -780,6 +790,7 @@ def run_export_case(case, workdir):
                         want = list(range(1, len(e_idx) + 1))
                     else:
                         want = [src_tok[(f, key)][i] for i in e_idx]
+                    part_eidx[(f, key)] = e_idx
                     if toks != want:
                         part_diff[(f, key)] = (
                             [i for i in range(len(want)) if toks[i] != want[i]]
@@ -921,7 +932,8 @@ def run_export_case(case, workdir):
                 return True
 
             def selected_values(f):
-                return np.asarray(troot[f][:])[rootmap[exp_idx]]
+                return np.asarray(troot[f][:])[
+                    rootmap[part_eidx.get((f, ""), exp_idx)]]
             # the writer casts some features to unsigned integers: negative
             # source values (tdms fixture: fl2_max = -17) do not survive
             lossy = [f for f in uniq if f in UINT_FEATS and kind_of(f) == 0
@@ -950,8 +962,8 @@ def run_export_case(case, workdir):
                 res["coq"] = None      # the model keeps values unchanged
             elif castimg and names_only(castimg) and all(
                     isinstance(dv, list) and f in castimg and all(
-                        not uint8_exact(truth_event(f, "", exp_idx[q]))
-                        for q in dv)
+                        not uint8_exact(truth_event(
+                            f, "", part_eidx[(f, "")][q])) for q in dv)
                     for (f, _k), dv in part_diff.items()):
                 res["finding"] = F_IMG
                 res["coq"] = None      # the model keeps values unchanged
@@ -1871,7 +1883,10 @@ def run(run):
     cases += [gen_stacks_case(rng, run.thorough) for _ in range(n_st)]
     cases += [gen_tsv_case(rng, run.thorough) for _ in range(n_tsv)]
     cases += [gen_tsv_real_case(rng) for _ in range(n_real)]
+    import time as _t
+    _t0 = _t.time()
     results = run_cases(cases, run.scratch)
+    run.extra["t_impl_s"] = round(_t.time() - _t0, 1)
     by_kind = {"export": [], "stacks": [], "tsv": [], "sff": [],
                "imgcast": []}
     for c, r in zip(cases, results):
@@ -1880,6 +1895,8 @@ def run(run):
         if c["kind"] in ("export", "tsv") and \
                 (c.get("filters") or {}).get("disable"):
             run.count("%s:enable-filters-off" % c["kind"])
+        if r.get("info", {}).get("filter_fallback"):
+            run.count("filter-setup-fell-back-to-weaker-settings")
         if c["kind"] in ("export", "tsv") and c.get("filters"):
             run.count("%s:real-filter:%s" % (
                 c["kind"], "differs-from-manual"
@@ -1935,7 +1952,7 @@ def run(run):
             continue
         model = common.coq_map(run.scratch, "c02_" + kind, HEADER,
                                MODEL_FN[kind], [r["coq"] for _, r in items],
-                               shard=40 if kind == "export" else 100)
+                               shard=25 if kind == "export" else 100)
         for (c, r), m in zip(items, model):
             run.corr_checked += 1
             if kind == "export":
